@@ -141,6 +141,16 @@ func (c *Ctx) PathTo(from *types.Func, pred func(*types.Func) bool, stop func(*t
 	return nil
 }
 
+// PathToStatic is PathTo over static calls and function references only, whatever the tier: for rules whose
+// question is "does THIS function reach g" the VTA edges of the thorough tier are too coarse (every visitor callback
+// stored in the one callback slot becomes a successor of dsl.Visit).
+func (c *Ctx) PathToStatic(from *types.Func, pred func(*types.Func) bool, stop func(*types.Func) bool) []*types.Func {
+	saved := c.Tier
+	c.Tier = "quick"
+	defer func() { c.Tier = saved }()
+	return c.PathTo(from, pred, stop)
+}
+
 // Reachable returns the set of functions reachable from the roots by static calls/refs.
 func (c *Ctx) Reachable(roots []*types.Func, stop func(*types.Func) bool) map[*types.Func]bool {
 	seen := map[*types.Func]bool{}
